@@ -15,8 +15,24 @@ UNKNOWN = {'markup': 'myml', 'stylesheet': 'mycss'}
 TAGN = {'GT': 1, 'GS': 2, 'U': 3, 'GX': 4}
 
 
+FALSY = {'output.indent': '', 'output.inlineBreak': 0, 'stylesheet.unitless': [], 'stylesheet.keywords': [], 'inlineElements': [],
+         'output.formatSkip': [], 'output.booleanAttributes': [], 'stylesheet.after': '', 'stylesheet.intUnit': '', 'custom.flag': None,
+         'output.tagCase': '', 'stylesheet.floatUnit': ''}
+
+
 def option_value(key, tag, n):
     t = '%s%d' % (tag, n)
+    if key in FALSY and (TAGN[tag] * 7 + n) % 5 == 0:
+        # a layer may well define a falsy value: it still wins over less specific layers
+        return FALSY[key]
+    if key == 'inlineElements':
+        return ['span', 'a', 'span', t.lower(), 'em']
+    if key == 'output.formatSkip':
+        return ['html', t.lower(), 'body']
+    if key == 'output.booleanAttributes':
+        return ['disabled', 'checked', t.lower(), 'checked']
+    if key == 'stylesheet.keywords':
+        return ['none', 'auto', t.lower(), 'auto']
     if key == 'output.indent':
         return '<%s>' % t
     if key == 'output.baseIndent':
@@ -55,9 +71,10 @@ def pick_by(tag, vals, n=0):
 
 MARKUP_OPTION_KEYS = ['output.indent', 'output.baseIndent', 'output.selfClosingStyle', 'output.attributeQuotes', 'jsx.enabled',
                       'comment.enabled', 'markup.attributes', 'markup.valuePrefix', 'output.tagCase', 'output.compactBoolean',
-                      'custom.flag', 'output.inlineBreak', 'markup.href', 'bem.enabled']
+                      'custom.flag', 'output.inlineBreak', 'markup.href', 'bem.enabled', 'inlineElements', 'output.formatSkip',
+                      'output.booleanAttributes']
 STYLE_OPTION_KEYS = ['stylesheet.after', 'stylesheet.between', 'stylesheet.intUnit', 'stylesheet.floatUnit', 'stylesheet.unitless',
-                     'stylesheet.shortHex', 'stylesheet.json', 'output.indent', 'output.format', 'custom.flag']
+                     'stylesheet.shortHex', 'stylesheet.json', 'output.indent', 'output.format', 'custom.flag', 'stylesheet.keywords']
 MARKUP_SNIPPET_KEYS = ['a', 'zz', 'tm', '!!!', 'link', 'img', 'bq']
 STYLE_SNIPPET_KEYS = ['m', 'zz', 'bd', 'p', 'pos']
 VARIABLE_KEYS = ['lang', 'vv', 'charset', 'locale']
@@ -132,8 +149,10 @@ def gen_global(rng, cfg_specs, n):
 
 
 MARKUP_ABBRS = ['ul>li.item[title]', 'zz', 'a', 'img', 'div[lang=${lang}]', 'div{${charset}}', 'tm', '!!!', 'input[disabled.]',
-                'div.c/', 'link', 'bq>p', 'label[for=x].y', '..cls', 'p>span*2', 'div{${locale}}>zz', 'section>(a+img)*2', 'br+hr']
-STYLE_ABBRS = ['m10', 'zz', 'm', 'p10+m5', 'bd', 'c#f', 'p', 'pos', 'w1.5', 'z5+zz', 'm1.5-2', 'lh2', 'bd+m+p', 'posr', 'c#fc0.5']
+                'div.c/', 'link', 'bq>p', 'label[for=x].y', '..cls', 'p>span*2', 'div{${locale}}>zz', 'section>(a+img)*2', 'br+hr',
+                'html>body>div>p', 'p>a+em+span+b', 'input[checked title]', 'div>span*4', 'ul>li*2>a', 'table>tr>td']
+STYLE_ABBRS = ['m10', 'zz', 'm', 'p10+m5', 'bd', 'c#f', 'p', 'pos', 'w1.5', 'z5+zz', 'm1.5-2', 'lh2', 'bd+m+p', 'posr', 'c#fc0.5',
+               'm:a', 'd:n', 'p-a', 'zom+z5', 'fw5', 'm0-auto', 'w10+h.5']
 
 
 def gen_c20(run_seed):
@@ -191,6 +210,9 @@ def gen_c20(run_seed):
             pool = STYLE_ABBRS if style else MARKUP_ABBRS
             abbr = '+'.join(pick(rng, pool) for _ in range(pick(rng, [1, 1, 2, 3])))
             op = {'op': 'call', 'cfg': cid, 'abbr': abbr, 'pin': rng.randrange(100), 'c20': True}
+            if spec.get('holder') != 'none' and spec.get('type') is not None and maybe(rng, 0.2):
+                # the host builds the Config itself and uses the type-specific entry point
+                op['entry'] = 'expand_stylesheet' if style else 'expand_markup'
             if maybe(rng, fault_rate):
                 if maybe(rng, 0.5):
                     op['abbr'] = ga.mutate(rng, abbr)
